@@ -29,6 +29,7 @@ type Run struct {
 	Reach    []string // vReach ids that must be hit (besides every assert)
 	Note     string
 	NoNative bool // sampled paths are not re-run natively (schedule choices / virtual time are not reproducible on the real runtime)
+	Modelled bool // part of the environment is an engine-level model (e.g. crypto/tls): samples are still validated natively, but a counterexample that only exists under the model is reported as found
 }
 
 type Property struct {
@@ -294,11 +295,12 @@ func CmdCheck(args []string) int {
 				continue
 			}
 			res, out := nativeReplay(path, r.Pkg)
-			if r.NoNative && res != "confirmed" {
-				// schedule-dependent harness: the real runtime cannot be forced
-				// onto the symbolic schedule, so the solver's path is reported
-				// as it is (the replay file records inputs and decision prefix).
-				fmt.Printf("  counterexample for %s/%s found on a symbolic schedule (native run under the real scheduler: %s): %s\n", label, v.Assert, res, summarizeInputs(v.Inputs))
+			if (r.NoNative || r.Modelled) && res != "confirmed" {
+				// schedule-dependent or stub/model-based harness: the real runtime
+				// cannot be forced onto the symbolic schedule, and the stubs do not
+				// exist natively, so the solver's path through the real code's SSA
+				// is reported as it is (the replay file records the inputs).
+				fmt.Printf("  counterexample for %s/%s found by the engine on the real code's SSA (native run under the real scheduler / without the model: %s): %s\n", label, v.Assert, res, summarizeInputs(v.Inputs))
 				res = "confirmed"
 			}
 			handleReplay(&rc, &violationLines, &problems, ev, id, path, label, v, res, out)
